@@ -5,6 +5,7 @@ From Coq Require Import Permutation.
 From Verif Require Import Base.Lex Region.Model Region.Ord Region.ProofsContains Region.ProofsGroup Region.ProofsInsert
   Region.ProofsMerge Region.ProofsGap Region.ProofsPhase1 Region.ProofsPhase2
   Region.Converge Region.ProofsConvA Region.ProofsConvB Region.ProofsConvC Region.PdCodec Region.ProofsBucket Region.Peers Region.ProofsBudget Region.ProofsLatest Region.ProofsApi Region.ProofsGc Region.InvCheck Region.ProofsClosed Region.ProofsReach.
+From Verif Require Import Region.ProofsTop.
 Open Scope N_scope.
 
 (* ---- containment ---- *)
@@ -21,21 +22,11 @@ Theorem C09_contains : forall pd budget fuel t c key is_end r c' t',
   pd_get_sound pd -> pd_prev_sound pd ->
   find_region_by_key pd budget fuel t c key is_end = (Ok r, c', t') ->
   (if is_end then r_contains_end r key else r_contains r key) = true.
-Proof. intros pd budget fuel t c key is_end r c' t' H1 H2. exact (find_region_by_key_holds pd budget H1 H2 fuel t c key is_end r c' t'). Qed.
+Proof. exact C09_contains_proof. Qed.
 Print Assumptions C09_contains.
 
 (* regression of F08 (fixed by 0dbaf7e): with the two regions [-inf,"b") ["b",+inf) the end-key lookup of the empty key
    returns the last region — cold cache (scan from PD) and warm cache (greatest start key) *)
-Definition f08_first := mkDesc 1 [] [98] 1 1 [(1, 1)] (1, 1) None.
-Definition f08_last := mkDesc 2 [98] [] 1 1 [(2, 1)] (2, 1) None.
-Definition f08_pd (t : nat) (q : pd_req) : pd_ans :=
-  match q with
-  | ReqGet k => PdOne (Some (if lex_ltb k [98] then f08_first else f08_last))
-  | ReqPrev k => PdOne (Some f08_first)
-  | ReqScan s _ _ => PdMany (if lex_ltb s [98] then [f08_first; f08_last] else [f08_last])
-  | _ => PdOne None
-  end.
-Definition f08_warm : cache := insert_all empty_cache [new_region f08_first; new_region f08_last].
 Example C09_contains_end_of_keyspace :
   (exists r c' t', find_region_by_key f08_pd 5 5 0 empty_cache [] true = (Ok r, c', t') /\ r_id r = 2 /\ r_contains_end r [] = true) /\
   (exists r c' t', find_region_by_key f08_pd 5 5 0 f08_warm [] true = (Ok r, c', t') /\ r_id r = 2 /\ r_contains_end r [] = true /\ t' = 0%nat).
@@ -44,27 +35,24 @@ Proof. split; vm_compute; eexists _, _, _; repeat split. Qed.
 (* LocateRegionByID returns the region asked for *)
 Theorem C09_contains_by_id : forall pd budget t c id r c' t',
   pd_byid_sound pd -> locate_by_id pd budget t c id = (Ok r, c', t') -> r_id r = id.
-Proof. intros pd budget t c id r c' t' H. exact (locate_by_id_id pd budget H t c id r c' t'). Qed.
+Proof. exact C09_contains_by_id_proof. Qed.
 Print Assumptions C09_contains_by_id.
 
 (* TryLocateKey (cache only) *)
 Theorem C09_contains_try : forall c key r, try_find c key false = Some r -> r_contains r key = true.
-Proof. intros c key r H. exact (try_find_holds c key false r H). Qed.
+Proof. exact C09_contains_try_proof. Qed.
 Print Assumptions C09_contains_try.
 (* LocateRegionByIDFromPD (bypasses the cache) *)
 Theorem C09_contains_by_id_from_pd : forall pd budget t id r t',
   pd_byid_sound pd -> load_by_id pd budget t id = (Ok r, t') -> r_id r = id.
-Proof. intros pd budget t id r t' H. exact (load_by_id_id pd budget H t id r t'). Qed.
+Proof. exact C09_contains_by_id_from_pd_proof. Qed.
 Print Assumptions C09_contains_by_id_from_pd.
 (* ListRegionIDsInKeyRange: the regions listed form a chain — the first holds the start key, each next one holds the end key
    of the one before, the last holds the end key *)
 Theorem C09_list_region_ids_chain : forall pd budget fuel t c s e res c' t',
   pd_get_sound pd -> pd_prev_sound pd ->
   list_region_ids pd budget fuel t c s e [] = (Ok res, c', t') -> chain s e res.
-Proof.
-  intros pd budget fuel t c s e res c' t' H1 H2 H.
-  destruct (list_region_ids_chain pd budget H1 H2 fuel t c s e [] res c' t' H) as [new [-> Hc]]. exact Hc.
-Qed.
+Proof. exact C09_list_region_ids_chain_proof. Qed.
 Print Assumptions C09_list_region_ids_chain.
 
 (* ---- gap-free coverage of multi-region lookups ---- *)
@@ -92,12 +80,7 @@ Theorem C09_range_gap_free : forall pd budget batch_limit fuel t c rs need_leade
   (need_leader = true -> pd_leaders pd) ->
   batch_locate pd budget batch_limit fuel t c rs need_leader = (Ok locs, c', t') ->
   forall s e k, In (s, e) rs -> in_range s e k -> exists l, In l locs /\ in_range (r_start l) (r_end l) k.
-Proof.
-  intros pd budget bl fuel t c rs nl locs c' t' Hs Hwf Hlen Hl H s e k Hin Hk.
-  destruct (batch_locate_covers pd budget bl fuel t c rs nl locs c' t' Hs Hwf Hlen Hl H k) as [l [Hl1 Hl2]].
-  - exists s, e. split; assumption.
-  - exists l. split; [exact Hl1|]. apply r_contains_spec. exact Hl2.
-Qed.
+Proof. exact C09_range_gap_free_proof. Qed.
 Print Assumptions C09_range_gap_free.
 
 (* ANY number of ranges (BatchLocateKeyRanges sends the uncached ranges in chunks of 16*defaultRegionsPerBatch and
@@ -107,12 +90,7 @@ Theorem C09_range_gap_free_any : forall pd budget batch_limit fuel t c rs need_l
   sorted_starts (c_sorted c) -> ranges_wf rs -> (need_leader = true -> pd_leaders pd) -> pd_no_junk pd ->
   batch_locate pd budget batch_limit fuel t c rs need_leader = (Ok locs, c', t') ->
   forall s e k, In (s, e) rs -> in_range s e k -> exists l, In l locs /\ in_range (r_start l) (r_end l) k.
-Proof.
-  intros pd budget bl fuel t c rs nl locs c' t' Hs Hwf Hl Hj H s e k Hin Hk.
-  destruct (batch_locate_covers_any pd budget bl fuel t c rs nl locs c' t' Hs Hwf Hl Hj H k) as [l [Hl1 Hl2]].
-  - exists s, e. split; assumption.
-  - exists l. split; [exact Hl1|]. apply r_contains_spec. exact Hl2.
-Qed.
+Proof. exact C09_range_gap_free_any_proof. Qed.
 Print Assumptions C09_range_gap_free_any.
 
 (* LocateKeyRange *)
@@ -120,12 +98,7 @@ Theorem C09_key_range_gap_free : forall pd budget batch_limit fuel t c s e locs 
   pd_leaders pd ->
   locate_key_range pd budget batch_limit fuel t c s e [] = (Ok locs, c', t') ->
   forall k, in_range s e k -> exists l, In l locs /\ in_range (r_start l) (r_end l) k.
-Proof.
-  intros pd budget bl fuel t c s e locs c' t' Hl H k [Hk1 Hk2].
-  destruct (locate_key_range_covers pd budget bl Hl s e fuel t c s [] locs c' t') with (k := k) as [l [Hl1 Hl2]]; try assumption.
-  - intros k0 H1 _ H3. exfalso. apply leb_not_ltb in H1. congruence.
-  - exists l. split; [exact Hl1|]. apply r_contains_spec. exact Hl2.
-Qed.
+Proof. exact C09_key_range_gap_free_proof. Qed.
 Print Assumptions C09_key_range_gap_free.
 
 (* LoadRegionsInKeyRange (PD only) *)
@@ -133,12 +106,7 @@ Theorem C09_load_regions_gap_free : forall pd budget batch_limit fuel t c s e re
   pd_leaders pd ->
   load_regions_in_range pd budget batch_limit fuel t c s e [] = (Ok regs, c', t') ->
   forall k, in_range s e k -> exists l, In l regs /\ in_range (r_start l) (r_end l) k.
-Proof.
-  intros pd budget bl fuel t c s e regs c' t' Hl H k [Hk1 Hk2].
-  destruct (load_regions_covers pd budget bl Hl s e fuel t c s [] regs c' t') with (k := k) as [l [Hl1 Hl2]]; try assumption.
-  - intros k0 H1 _ H3. exfalso. apply leb_not_ltb in H1. congruence.
-  - exists l. split; [exact Hl1|]. apply r_contains_spec. exact Hl2.
-Qed.
+Proof. exact C09_load_regions_gap_free_proof. Qed.
 Print Assumptions C09_load_regions_gap_free.
 (* BatchLoadRegionsWithKeyRanges (and ...WithKeyRange / ...FromKey through it): what one call loads covers the ranges up to
    the end of the last loaded region *)
@@ -147,7 +115,7 @@ Theorem C09_batch_load_covers : forall pd budget fuel t c rs count nl regs c' t'
   batch_load_ranges pd budget fuel t c rs count nl = (Ok regs, c', t') ->
   forall k, in_ranges rs k ->
     covered regs k \/ (exists lastr x, rev regs = lastr :: x /\ r_end lastr <> [] /\ lex_leb (r_end lastr) k = true).
-Proof. intros pd budget. exact (batch_load_ranges_covers pd budget). Qed.
+Proof. exact C09_batch_load_covers_proof. Qed.
 Print Assumptions C09_batch_load_covers.
 
 (* the sorted-index invariant the two theorems above need is kept by every insertion, starting from the empty cache *)
@@ -162,13 +130,7 @@ Theorem C09_group_partition : forall pd budget fuel t c keys asg c' t',
   map fst asg = keys /\ (forall k r, In (k, r) asg -> r_contains r k = true) /\
   Permutation (concat (map snd (groups_of asg))) keys /\ NoDup (map fst (groups_of asg)) /\
   (forall v ks k, In (v, ks) (groups_of asg) -> In k ks -> exists r, In (k, r) asg /\ r_verid r = v /\ r_contains r k = true).
-Proof.
-  intros pd budget fuel t c keys asg c' t' H1 H2 H.
-  destruct (group_assign_spec pd budget H1 H2 keys fuel t c None [] asg c' t' ltac:(intros kr []) H) as [Ha Hb]. cbn [map app] in Ha.
-  destruct (groups_partition asg) as [Hp [Hn Hg]].
-  split; [exact Ha|]. split; [intros k r Hin; exact (Hb (k, r) Hin)|]. split; [rewrite <- Ha; exact Hp|]. split; [exact Hn|].
-  intros v ks k Hin Hk. destruct (Hg v ks k Hin Hk) as [r [Hr Hv]]. exists r. split; [exact Hr|]. split; [exact Hv|exact (Hb (k, r) Hr)].
-Qed.
+Proof. exact C09_group_partition_proof. Qed.
 Print Assumptions C09_group_partition.
 
 (* ---- no regression ---- *)
@@ -222,7 +184,7 @@ Theorem C09_converges : forall truth cur_of pd budget fuel k T c,
   In T truth -> tcontains T k = true ->
   cinv truth c ->
   rounds truth cur_of pd budget fuel 4 c k = true.
-Proof. intros truth cur_of pd budget fuel k T c H1 H2 H3 H4 H5 H6 H7 H8. exact (converges truth H1 cur_of H2 pd H3 budget fuel H4 H5 k T H6 H7 c H8). Qed.
+Proof. exact C09_converges_proof. Qed.
 Print Assumptions C09_converges.
 
 Theorem C09_converges_served : forall truth cur_of pd budget fuel k T c c',
@@ -235,7 +197,7 @@ Theorem C09_converges_served : forall truth cur_of pd budget fuel k T c c',
   round truth cur_of pd budget fuel c k = (true, c') ->
   exists e, In e (c_sorted c') /\ r_verid e = d_verid T /\ r_contains e k = true /\
             store_reply truth cur_of (r_verid e) (d_leader T) = RepOk /\ nth (r_work e) (r_peers e) (0, 0) = d_leader T.
-Proof. intros truth cur_of pd budget fuel k T c c' H1 H2 H3 H4 H5 H6 H7 H8. exact (round_served truth H1 cur_of H2 pd H3 budget fuel H4 H5 k T H6 H7 c c' H8). Qed.
+Proof. exact C09_converges_served_proof. Qed.
 Print Assumptions C09_converges_served.
 
 (* the same through the real sender: RegionRequestSender.SendReqCtx locates once and makes as many attempts as it likes on the
@@ -249,7 +211,7 @@ Theorem C09_converges_composed : forall truth cur_of pd budget fuel k T c inner,
   In T truth -> tcontains T k = true ->
   cinv truth c ->
   srounds truth cur_of pd budget fuel inner 4 0 c k = true.
-Proof. intros truth cur_of pd budget fuel k T c inner H1 H2 H3 H4 H5 H6 H7 H8. exact (converges_composed truth H1 cur_of H2 pd H3 budget fuel H4 H5 k T H6 H7 inner c H8). Qed.
+Proof. exact C09_converges_composed_proof. Qed.
 Print Assumptions C09_converges_composed.
 
 (* the invariant is established by the empty cache and kept by everything a round does: inserting current regions
@@ -259,7 +221,7 @@ Theorem C09_converges_inv_insert : forall truth c r T,
   length (r_sepochs r) = length (r_peers r) ->
   exists c' deleted, insert_region c r = (true, c') /\ cinv truth c' /\ c_sepochs c' = c_sepochs c /\ In (inherit r deleted) (c_sorted c') /\
     (forall x, In x (c_sorted c') -> x = inherit r deleted \/ In x (c_sorted c)).
-Proof. intros truth c r T H. exact (insert_truth truth H c r T). Qed.
+Proof. exact C09_converges_inv_insert_proof. Qed.
 Print Assumptions C09_converges_inv_insert.
 
 (* the hypotheses of the convergence theorems as executable tests (extracted; the replay evaluates [cinvb] on the
@@ -267,7 +229,7 @@ Print Assumptions C09_converges_inv_insert.
 Theorem C09_inv_check_sound : forall truth c hist,
   (truth_wfb truth = true -> truth_wf truth) /\ (cinvb truth c = true -> cinv truth c) /\
   (hist_okb truth hist = true -> hist_ok truth (fun d => In d hist)).
-Proof. intros truth c hist. exact (conj (truth_wfb_sound truth) (conj (cinvb_sound truth c) (hist_okb_sound truth hist))). Qed.
+Proof. exact C09_inv_check_sound_proof. Qed.
 Print Assumptions C09_inv_check_sound.
 Theorem C09_converges_checked : forall truth cur_of pd budget fuel k c,
   truth_wfb truth = true -> cinvb truth c = true ->
@@ -284,7 +246,7 @@ Print Assumptions C09_converges_checked.
    once PD reports the current regions, 4 rounds suffice from any reachable state *)
 Theorem C09_invariant_reachable : forall truth H c,
   hist_ok truth H -> reach truth H c -> cinv truth c.
-Proof. intros truth H c H2 H3. exact (proj1 (reach_rinv truth H H2 c H3)). Qed.
+Proof. exact C09_invariant_reachable_proof. Qed.
 Print Assumptions C09_invariant_reachable.
 Theorem C09_converges_reachable : forall truth H cur_of pd budget fuel k T c,
   truth_wf truth -> hist_ok truth H -> reach truth H c ->
@@ -293,10 +255,7 @@ Theorem C09_converges_reachable : forall truth H cur_of pd budget fuel k T c,
   (0 < budget)%nat -> (0 < fuel)%nat ->
   In T truth -> tcontains T k = true ->
   rounds truth cur_of pd budget fuel 4 c k = true.
-Proof.
-  intros truth H cur_of pd budget fuel k T c H1 Hh Hr H2 H3 H4 H5 H6 H7.
-  exact (converges truth H1 cur_of H2 pd H3 budget fuel H4 H5 k T H6 H7 c (proj1 (reach_rinv truth H Hh c Hr))).
-Qed.
+Proof. exact C09_converges_reachable_proof. Qed.
 Print Assumptions C09_converges_reachable.
 
 (* ---- the situations without convergence (leader store down, leaderless region, PD stale or silent) ---- *)
@@ -330,10 +289,7 @@ Theorem C09_contains_codec : forall raw budget fuel t c key is_end r c' t',
   raw_get_sound raw -> raw_prev_sound raw ->
   find_region_by_key (codec_pd raw) budget fuel t c key is_end = (Ok r, c', t') ->
   (if is_end then r_contains_end r key else r_contains r key) = true.
-Proof.
-  intros raw budget fuel t c key is_end r c' t' H1 H2.
-  exact (find_region_by_key_holds (codec_pd raw) budget (codec_get_sound raw H1) (codec_prev_sound raw H2) fuel t c key is_end r c' t').
-Qed.
+Proof. exact C09_contains_codec_proof. Qed.
 Print Assumptions C09_contains_codec.
 
 (* ---- buckets ---- *)
@@ -379,12 +335,12 @@ Theorem C09_contains_after_gc : forall pd budget fuel t c key is_end r c' t',
   pd_get_sound pd -> pd_prev_sound pd ->
   find_region_by_key pd budget fuel t (gc c) key is_end = (Ok r, c', t') ->
   (if is_end then r_contains_end r key else r_contains r key) = true.
-Proof. intros pd budget fuel t c. exact (C09_contains pd budget fuel t (gc c)). Qed.
+Proof. exact C09_contains_after_gc_proof. Qed.
 Print Assumptions C09_contains_after_gc.
 (* GC (expired entries dropped with their by-version and latest records, delayed reloads promoted) and TTL expiry keep the
    invariant the convergence theorem starts from: convergence within 4 rounds is not lost *)
-Theorem C09_gc_keeps_invariant : forall truth c, truth_wf truth -> cinv truth c -> cinv truth (gc c).
-Proof. intros truth c _. exact (gc_inv truth c). Qed.
+Theorem C09_gc_keeps_invariant : forall truth c, cinv truth c -> cinv truth (gc c).
+Proof. exact gc_inv. Qed.
 Print Assumptions C09_gc_keeps_invariant.
 Theorem C09_expire_keeps_invariant : forall truth c r, cinv truth c -> In r (c_sorted c) -> cinv truth (upd_entry c r expire_r).
 Proof. exact expire_inv. Qed.
@@ -426,16 +382,7 @@ Proof.
 Qed.
 
 (* ---- non-vacuity ---- *)
-Definition ex_pd (t : nat) (q : pd_req) : pd_ans :=
-  match q with
-  | ReqBatch _ _ | ReqScan _ _ _ => PdMany [mkDesc 2 [98] [100] 3 1 [(2, 1)] (2, 1) None]
-  | ReqGet k => f08_pd t q
-  | _ => PdOne None
-  end.
 (* regions [-inf,b) [b,d) [d,+inf); the cache knows the first and the last; three ranges, the middle one is a miss *)
-Definition ex_cache : cache := insert_all empty_cache
-  [new_region (mkDesc 1 [] [98] 3 1 [(1, 1)] (1, 1) None); new_region (mkDesc 3 [100] [] 3 1 [(3, 1)] (3, 1) None)].
-Definition ex_ranges : list range := [([97], [97; 1]); ([98], [99]); ([101], [102])].
 Example C09_range_gap_free_nonvacuous :
   sorted_starts (c_sorted ex_cache) /\ ranges_wf ex_ranges /\
   exists locs c' t', batch_locate ex_pd 5 128 5 0 ex_cache ex_ranges false = (Ok locs, c', t') /\ map r_id locs = [1; 2; 3].
@@ -454,46 +401,7 @@ Proof. vm_compute. repeat split; discriminate. Qed.
 (* convergence: two current regions [-inf,b) (id 1, leader on store 2) and [b,+inf) (id 2, leader on store 1); the cache
    holds one valid stale entry: region 1 before the split, believed to be led by its peer on store 1. The request for
    key "c" needs exactly 4 rounds: NotLeader, EpochNotMatch, NotLeader, served. *)
-Definition cv_R1 := mkDesc 1 [] [98] 2 1 [(1, 1); (2, 2)] (2, 2) None.
-Definition cv_R2 := mkDesc 2 [98] [] 2 1 [(3, 1); (4, 2)] (3, 1) None.
-Definition cv_truth := [cv_R1; cv_R2].
-Definition cv_pd (t : nat) (q : pd_req) : pd_ans :=
-  match q with ReqGet k => PdOne (Some (if lex_ltb k [98] then cv_R1 else cv_R2)) | _ => PdOne None end.
-Definition cv_stale := mkRegion 1 [] [] 1 1 [(1, 1); (2, 2)] 0 false 0 false false false [0; 0] None.
-Definition cv_cache := mkCache [cv_stale] [((1, 1, 1), [])] [(1, (1, 1))] [] [].
 (* the same cache after a send failure on store 1 (its fail-epoch is 1, the entry recorded 0) *)
-Definition cv_cache_failed := mkCache [cv_stale] [((1, 1, 1), [])] [(1, (1, 1))] [(1, 1)] [].
-Lemma cv_truth_wf : truth_wf cv_truth.
-Proof.
-  constructor.
-  - intros k. destruct (lex_ltb k [98]) eqn:E; [exists cv_R1|exists cv_R2]; (split; [cbn; tauto|]); apply contains_spec.
-    + split; [apply leb_nil_l|right; exact E].
-    + split; [apply ltb_false_leb; exact E|left; reflexivity].
-  - intros T1 T2 k [<-|[<-|[]]] [<-|[<-|[]]] H1 H2; try reflexivity; exfalso;
-      apply contains_spec in H1; apply contains_spec in H2; destruct H1 as [A B], H2 as [C D]; cbn [cv_R1 cv_R2 d_start d_end] in *;
-      repeat match goal with H : _ \/ _ |- _ => destruct H as [H|H] end; try discriminate; unfold kle, klt in *;
-      match goal with H1 : lex_leb ?a ?b = true, H2 : lex_ltb ?b ?a = true |- _ => apply leb_not_ltb in H1; congruence end.
-  - intros T1 T2 [<-|[<-|[]]] [<-|[<-|[]]] H; try reflexivity; discriminate H.
-  - intros T [<-|[<-|[]]]; [right; reflexivity|left; reflexivity].
-  - intros T [<-|[<-|[]]]; cbn; tauto.
-  - intros T [<-|[<-|[]]]; cbn; repeat constructor; cbn; intuition discriminate.
-Qed.
-Lemma cv_cache_inv : cinv cv_truth cv_cache.
-Proof.
-  constructor; cbn [cv_cache c_sorted c_regions c_latest].
-  - repeat constructor.
-  - intros x T [<-|[]] [<-|[<-|[]]] H; discriminate H.
-  - intros x [<-|[]]. reflexivity.
-  - intros x y [<-|[]] [<-|[]] _. reflexivity.
-  - intros x T [<-|[]] [<-|[<-|[]]] _; cbn; lia.
-  - intros T v cf [<-|[<-|[]]] H; cbn in H; [injection H as <- <-; cbn; lia|discriminate].
-  - intros x T [<-|[]] [<-|[<-|[]]] H; [cbn; lia|discriminate H].
-  - intros x [<-|[]]. repeat split; [left; reflexivity|discriminate|cbn; lia|intros H; exfalso; apply H; reflexivity].
-  - intros x [<-|[]]. reflexivity.
-  - intros T p _ _. reflexivity.
-Qed.
-Lemma cv_cache_failed_inv : cinv cv_truth cv_cache_failed.
-Proof. destruct cv_cache_inv as [A B C D E F G H I J]. constructor; assumption. Qed.
 Example C09_converges_nonvacuous :
   truth_wf cv_truth /\ cinv cv_truth cv_cache /\ cinv cv_truth empty_cache /\
   rounds cv_truth (fun _ => cv_truth) cv_pd 3 3 3 cv_cache [99] = false /\
@@ -519,7 +427,6 @@ Qed.
    and takes its address away; a warm entry whose work peer sits on it is then invalidated by the next GetTiKVRPCContext
    (no address) — in the convergence theorem this is the "unusable work store" round, the bound stays 4. [cinv] requires
    that no CURRENT peer is on a store the cache knows to be a tombstone. *)
-Definition cv_stale7 := mkRegion 1 [] [] 1 1 [(1, 7); (2, 2)] 0 false 0 false false false [0; 0] None.
 Example C09_converges_after_decommission :
   let c := re_resolve (mkCache [cv_stale7] [((1, 1, 1), [])] [(1, (1, 1))] [] []) 7 true in
   c_sepochs c = [(7, 1)] /\ c_tomb c = [7] /\
@@ -543,8 +450,6 @@ Proof. vm_compute. repeat split. Qed.
 
 (* reachability: PD still answers every key lookup with the old, unsplit region 1 (a state of the history); the cold cache
    takes it; the resulting state is reachable, satisfies the invariant, and needs all 4 rounds once PD is current *)
-Definition cv_old := mkDesc 1 [] [] 1 1 [(1, 1); (2, 2)] (1, 1) None.
-Definition cv_hist := [cv_old; cv_R1; cv_R2].
 Example C09_reachable_nonvacuous :
   hist_okb cv_truth cv_hist = true /\ hist_okb cv_truth [mkDesc 1 [] [] 3 1 [(1, 1); (2, 2)] (1, 1) None] = false /\
   exists c, reach cv_truth (fun d => In d cv_hist) c /\ c = cv_cache /\ cinvb cv_truth c = true /\
